@@ -1,6 +1,9 @@
 //! C06 — JSR requirements resolve to the specified version (four-tier rule).
 
 use crate::engine::*;
+use crate::env::*;
+use crate::obs::*;
+use crate::registry::*;
 use crate::report::*;
 use chrono::TimeZone;
 use deno_graph::packages::*;
@@ -326,6 +329,211 @@ fn body(n_versions: usize, with_at: bool) -> impl Fn(&Ch) -> Run + Sync + Send {
   }
 }
 
+const G_STATES: &[(&str, bool, bool, Created)] = &[
+  ("live", true, false, Created::Before),
+  ("absent", false, false, Created::None),
+  ("yanked", true, true, Created::Before),
+  ("live-after-cutoff", true, false, Created::After),
+  ("live-at-cutoff", true, false, Created::At),
+  ("yanked-after-cutoff", true, true, Created::After),
+  ("live-no-date", true, false, Created::None),
+];
+const G_IMPORTS: &[&str] = &["", "jsr:@s/a", "jsr:@s/a@^1", "jsr:@s/a@~1.1", "jsr:@s/a@1.0.0", "jsr:@s/a@^2", "jsr:@s/a@1", "jsr:@s/a@latest", "jsr:@s/a@^1.1"];
+
+/// Graph level: real builds against a scripted registry; the function-level
+/// reference is applied in visit order with the selections accumulated so far.
+fn body_graph(ch: &Ch) -> Run {
+  let mut run = Run::default();
+  let versions: Vec<Version> = ALL_VERSIONS.iter().map(|v| Version::parse_standard(v).unwrap()).collect();
+  let states: Vec<usize> = versions.iter().map(|_| ch.choose("version_state", G_STATES.len())).collect();
+  let registry: Vec<(Version, VState)> = versions
+    .iter()
+    .zip(&states)
+    .map(|(v, s)| {
+      let st = G_STATES[*s];
+      (v.clone(), VState { present: st.1, yanked: st.2, created: st.3 })
+    })
+    .collect();
+  let mut imports: Vec<&str> = vec![];
+  for k in 0..3 {
+    let i = ch.choose("import", G_IMPORTS.len());
+    // default program: one unconstrained import
+    let i = if k == 0 && i == 0 { 1 } else { i };
+    if !G_IMPORTS[i].is_empty() && !imports.contains(&G_IMPORTS[i]) {
+      imports.push(G_IMPORTS[i]);
+    }
+  }
+  let seed = ch.choose("lockfile_selection", 4);
+  let date_cfg = ch.choose("date_config", 3);
+  let prefer = ch.choose("prefer_cached", 4);
+  let cached_sets: [&[&str]; 4] = [&[], &["1.0.0"], &["1.1.0"], &["1.0.0", "1.2.0"]];
+  let cached: HashSet<Version> = cached_sets[prefer].iter().map(|v| Version::parse_standard(v).unwrap()).collect();
+  // fixture
+  let sched = Sched::new(SchedMode::Immediate);
+  let loader = ScriptedLoader::new(sched);
+  let mut root = String::new();
+  for (i, t) in imports.iter().enumerate() {
+    root.push_str(&format!("import * as i{i} from \"{t}\";\n"));
+  }
+  loader.add_text("https://x/root.ts", &root);
+  let pkg = RegPackage {
+    name: "@s/a".into(),
+    versions: registry
+      .iter()
+      .filter(|(_, s)| s.present)
+      .map(|(v, s)| {
+        let mut rv = RegVersion::new(&v.to_string(), &[("/mod.ts", "export const a = 1;\n")]);
+        rv.yanked = s.yanked;
+        rv.created_at = created_at(s.created).map(|d| serde_json::to_value(d).unwrap().as_str().unwrap().to_string());
+        rv
+      })
+      .collect(),
+    raw_meta: None,
+  };
+  pkg.install(&loader);
+  if prefer > 0 {
+    *loader.cached_only.borrow_mut() = Some(cached.iter().map(|v| url(&format!("https://jsr.io/@s/a/{v}_meta.json"))).collect());
+  }
+  let mut graph = deno_graph::ModuleGraph::new(deno_graph::GraphKind::All);
+  let seeded: Option<(&str, &str)> = match seed {
+    1 => Some(("@s/a@^1", "1.0.0")),
+    2 => Some(("@s/a@^1", "1.1.5")),
+    3 => Some(("@s/a@2", "2.0.0")),
+    _ => None,
+  };
+  let mut selected: Vec<Version> = vec![];
+  if let Some((req, v)) = seeded {
+    let dep = deno_semver::jsr::JsrDepPackageReq::jsr(PackageReq::from_str(req).unwrap());
+    graph.fill_from_lockfile(deno_graph::FillFromLockfileOptions {
+      redirects: std::iter::empty(),
+      package_specifiers: [(&dep, v)].into_iter(),
+    });
+    selected.push(Version::parse_standard(v).unwrap());
+  }
+  let name = deno_semver::package::PackageName::from_str("@s/a");
+  let resolver = match date_cfg {
+    0 => JsrVersionResolver::default(),
+    1 => JsrVersionResolver { newest_dependency_date_options: NewestDependencyDateOptions::from_date(cutoff()) },
+    _ => JsrVersionResolver {
+      newest_dependency_date_options: NewestDependencyDateOptions {
+        date: Some(NewestDependencyDate(cutoff())),
+        exclude_jsr_pkgs: [name.clone()].into_iter().collect(),
+        exclude_jsr_pkg_prefixes: vec![],
+      },
+    },
+  };
+  let date_applies = date_cfg == 1;
+  let r = build_graph(
+    &mut graph,
+    vec![url("https://x/root.ts")],
+    &loader,
+    BuildCfg {
+      jsr_version_resolver: Some(resolver),
+      prefer_cached_jsr_versions: prefer > 0,
+      ..Default::default()
+    },
+    ch,
+  );
+  run.evals = 1;
+  let desc = json!({
+    "registry": registry.iter().zip(&states).map(|((v, _), s)| format!("{v}: {}", G_STATES[*s].0)).collect::<Vec<_>>(),
+    "program": root, "lockfile_selection": seeded, "date_config": (["none", "cutoff", "cutoff-but-package-excluded"][date_cfg]),
+    "prefer_cached_jsr_versions": prefer > 0, "cached_version_manifests": cached_sets[prefer],
+  });
+  if r.is_err() {
+    run.violate("build-did-not-finish", "deadlock", desc.clone());
+    return run;
+  }
+  // reference in visit order
+  let mut exp_map: std::collections::BTreeMap<PackageReq, String> = Default::default();
+  let mut may_be_yanked: std::collections::BTreeSet<String> = Default::default();
+  let mut exp_yanked: std::collections::BTreeSet<String> = Default::default();
+  let mut outcome = vec![];
+  if let Some((req, v)) = seeded {
+    exp_map.insert(PackageReq::from_str(req).unwrap(), format!("@s/a@{v}"));
+  }
+  for t in &imports {
+    let req_text = t.strip_prefix("jsr:@s/a").unwrap();
+    let req_text = req_text.strip_prefix('@').unwrap_or("*");
+    if req_text == "latest" {
+      match graph.try_get(&url(t)) {
+        Err(e) if e.to_string().to_lowercase().contains("tag") => {}
+        other => run.violate("version-tag-not-rejected", format!("{t}: {:?}", other.map(|m| m.map(|m| m.specifier().to_string())).map_err(|e| e.to_string())), desc.clone()),
+      }
+      outcome.push("tag".to_string());
+      continue;
+    }
+    let req = PackageReq { name: name.clone(), version_req: deno_semver::VersionReq::parse_from_specifier(req_text).unwrap() };
+    let unification_decides = selected.iter().any(|v| req.version_req.matches(v));
+    let cached_here = if prefer > 0 && !unification_decides { cached.clone() } else { HashSet::new() };
+    let want = reference(&registry, &req, &selected, &cached_here, date_applies);
+    outcome.push(format!("{want:?}"));
+    let key = format!("{}@{}", req.name, req.version_req);
+    match want {
+      Expected::Version(v, yanked, tier) => {
+        // per import: the redirect of *this* specifier (the mapping table is
+        // keyed by requirement and holds the latest resolution of equal
+        // requirements such as `^1` and `1`; it is compared at the end)
+        let in_registry = registry.iter().any(|(rv, s)| rv.to_string() == v && s.present);
+        let got = graph.redirects.get(&url(t)).map(|u| u.to_string());
+        let want_url = format!("https://jsr.io/@s/a/{v}/mod.ts");
+        if in_registry && got.as_deref() != Some(want_url.as_str()) {
+          run.violate(
+            format!("graph-selects-wrong-version@tier-{tier}"),
+            format!("{t}: redirected to {got:?}, the rule (applied in visit order with selections {:?}) gives {v}", selected.iter().map(|v| v.to_string()).collect::<Vec<_>>()),
+            desc.clone(),
+          );
+        }
+        let _ = &key;
+        exp_map.insert(req.clone(), format!("@s/a@{v}"));
+        if tier == "already-selected" && registry.iter().any(|(rv, s)| rv.to_string() == v && s.present && s.yanked) {
+          // the statement is silent on whether a re-used selection that is
+          // yanked in the registry counts as "used yanked"
+          may_be_yanked.insert(format!("@s/a@{v}"));
+        }
+        let ver = Version::parse_standard(&v).unwrap();
+        if !selected.contains(&ver) {
+          selected.push(ver.clone());
+        }
+        if yanked == Some(true) {
+          exp_yanked.insert(format!("@s/a@{v}"));
+        }
+      }
+      Expected::NotFound { date_note } => match graph.try_get(&url(t)) {
+        Err(e) => {
+          let msg = e.to_string();
+          if !msg.contains("Could not find version") {
+            run.violate("not-found-requirement-wrong-error", format!("{t}: {msg}"), desc.clone());
+          } else if msg.contains("newer matching version") != date_note {
+            run.violate(
+              "not-found-error-date-note-wrong",
+              format!("{t}: message {} the date note, a newer match {} excluded by date: {msg}", if msg.contains("newer matching version") { "has" } else { "lacks" }, if date_note { "was" } else { "was not" }),
+              desc.clone(),
+            );
+          }
+        }
+        other => run.violate("unsatisfiable-requirement-not-an-error", format!("{t}: {:?}", other.map(|m| m.map(|m| m.specifier().to_string())).map_err(|e| e.to_string())), desc.clone()),
+      },
+    }
+  }
+  let got_map: std::collections::BTreeMap<PackageReq, String> = graph.packages.mappings().iter().map(|(k, v)| (k.clone(), v.to_string())).collect();
+  if got_map != exp_map {
+    run.violate("package-mappings-differ-from-selection-rule", format!("mappings {got_map:?}, expected {exp_map:?}"), desc.clone());
+  }
+  let mut pk = graph.packages.clone();
+  let got_yanked: std::collections::BTreeSet<String> = pk.used_yanked_packages().map(|p| p.to_string()).collect();
+  if !exp_yanked.is_subset(&got_yanked) || !got_yanked.iter().all(|y| exp_yanked.contains(y) || may_be_yanked.contains(y)) {
+    run.violate("used-yanked-packages-differ", format!("reported {got_yanked:?}, expected {exp_yanked:?}"), desc.clone());
+  }
+  run.state_key = hash_json(&desc);
+  run.nontrivial = imports.len() >= 2 || seeded.is_some();
+  run.outcome_key = hash_of(&outcome);
+  if ch.describe() {
+    run.sample = Some(json!({"scenario": desc, "mappings": got_map.iter().map(|(k, v)| format!("{}@{} -> {v}", k.name, k.version_req)).collect::<Vec<_>>()}));
+  }
+  run
+}
+
 pub fn prop(tier: Tier) -> Prop {
   let (n, with_at) = match tier {
     Tier::Quick => (3, true),
@@ -335,16 +543,27 @@ pub fn prop(tier: Tier) -> Prop {
     id: "C06",
     rule: format!("state = one registry (each of {n} versions absent / live / yanked x created_at none / before / exactly at / after the cutoff); per registry every (date+exclusion configuration, requirement, set of already-selected versions incl. one unknown to the registry, set of cached versions) is evaluated against a declarative four-tier reference. Non-trivial = registry with at least 2 versions present."),
     assumptions: vec![
-      "function level: JsrVersionResolver::get_for_package(..).resolve_version(..), the single selection routine the builder calls".into(),
+      "function level: JsrVersionResolver::get_for_package(..).resolve_version(..), the single selection routine the builder calls; graph level: registry of one package with 4 versions x 7 states, programs of <= 3 requirements".into(),
       "version domain {1.0.0, 1.1.0, 1.2.0, 2.0.0} (+1.1.5 as an already-selected version the registry lacks); 6 requirements; pre-release versions and tags are outside the alphabet (tags are rejected before this function)".into(),
       "is_yanked is not asserted in the already-selected tier (the statement is silent there)".into(),
     ],
-    parts: vec![Part {
-      name: "select",
-      body: Box::new(body(n, with_at)),
-      modes: vec![Mode::Full],
-      what: "version selection function against the four-tier reference",
-    }],
+    parts: vec![
+      Part {
+        name: "select",
+        body: Box::new(body(n, with_at)),
+        modes: vec![Mode::Full],
+        what: "version selection function against the four-tier reference",
+      },
+      Part {
+        name: "graph",
+        body: Box::new(body_graph),
+        modes: match tier {
+          Tier::Quick => vec![Mode::Deviations(2), Mode::Deviations(3)],
+          Tier::Thorough => vec![Mode::Deviations(3), Mode::Deviations(4), Mode::Deviations(5)],
+        },
+        what: "real builds against a scripted registry: up to 3 jsr: requirements resolved in visit order, lockfile-seeded selections, cutoff date / exclusion, prefer_cached_jsr_versions with cached manifest subsets, version tags; mappings, redirects, used yanked packages and not-found errors vs the function-level reference applied in visit order",
+      },
+    ],
     termination_property: false,
     min_outcomes: 4,
   }
